@@ -64,7 +64,18 @@ func scenC18(e *Env) func() {
 		p.Callers = append(p.Callers, cs)
 	}
 	for i, n := 0, Pick(e, 0, 0, 1, 2, 4); i < n; i++ {
-		p.CloseIdleAtMs = append(p.CloseIdleAtMs, Pick(e, 0, 1, 10, 50, 200, 500, 2000))
+		at := Pick(e, 0, 1, 10, 50, 200, 500, 2000)
+		if e.Chance(60) {
+			// the instant a call's response is due: the release of its connection and the
+			// sweep of the idle list then happen at the same simulated instant and are
+			// interleaved at lock granularity
+			cs := p.Callers[e.Int(len(p.Callers))]
+			at = 0
+			for _, c := range cs[:1+e.Int(len(cs))] {
+				at += c.GapMs + c.Act.DelayMs
+			}
+		}
+		p.CloseIdleAtMs = append(p.CloseIdleAtMs, at)
 	}
 	e.Sample = p
 	e.Cfg.Holds, e.Cfg.HoldMax = Pick(e, 0, 0, 2), 100*time.Millisecond
